@@ -104,7 +104,21 @@ class VLoop(asyncio.AbstractEventLoop):
     async def shutdown_default_executor(self, timeout=None): pass
 
     def run_in_executor(self, executor, func, *args):
-        raise HarnessError('run_in_executor reached: threads are outside the environment model')
+        # threads are outside the environment model; the one thing modelled is that the caller is suspended for (at least) one
+        # loop iteration: the function runs here and now, its result is delivered on the next iteration
+        fut = self.create_future()
+
+        def _deliver(ok, val):
+            if fut.cancelled():
+                return
+            (fut.set_result if ok else fut.set_exception)(val)
+        try:
+            res = func(*args)
+        except BaseException as ex:  # noqa
+            self.call_soon(_deliver, False, ex)
+        else:
+            self.call_soon(_deliver, True, res)
+        return fut
 
     # ---- one iteration
     def _run_once(self):
